@@ -313,7 +313,8 @@ PROPS = {
     "C08": {
         "generated": True,
         "proof_modules": ["GrolProofs.Props.C08", "GrolProofs.Precedence"],
-        "theorems": ["Grol.C08.front_end_total", "Grol.C08.parse_good", "Grol.C08.safe_always", "Grol.Parser.parseProgram_good", "Grol.Parser.allSpec",
+        "theorems": ["Grol.C08.statement", "Grol.C08.terminates", "Grol.C08.statement_lexer", "Grol.C08.parse_returns", "Grol.Parser.parseProgram_terminates",
+                     "Grol.Parser.allTm", "Grol.LexStream.tokStream_eof", "Grol.C08.front_end_total", "Grol.C08.parse_good", "Grol.C08.safe_always", "Grol.Parser.parseProgram_good", "Grol.Parser.allSpec",
                      "Grol.C08.parser_never_panics", "Grol.C08.printer_never_panics", "Grol.C08.partial",
                      "Grol.Parser.parseProgram_no_panic", "Grol.Parser.allSafe", "Grol.Parser.streamWF_of_b",
                      "Grol.Printer.printProgram_no_panic", "Grol.Printer.infix_tokens_have_precedence",
@@ -379,7 +380,8 @@ PROPS = {
     "C03": {
         "generated": True,
         "proof_modules": ["GrolProofs.Props.C03", "GrolProofs.Props.C08"],
-        "theorems": ["Grol.C03.ends_with_newline", "Grol.C03.exactly_one_newline", "Grol.Printer.printNode_P", "Grol.Printer.printNode_frame", "Grol.C03.model_is_stateless",
+        "theorems": ["Grol.C03.exactly_one_newline_parsed", "Grol.Parser.parseProgram_endOK", "Grol.Parser.litFact_of_b", "Grol.Parser.allEnd",
+                     "Grol.C03.ends_with_newline", "Grol.C03.exactly_one_newline", "Grol.Printer.printNode_P", "Grol.Printer.printNode_frame", "Grol.C03.model_is_stateless",
                      "Grol.C03.witness_not_idempotent", "Grol.C08.printer_never_panics"],
         "suites": ["format03"],
         "rule": _FRONT_RULE + " format03 suite: same cases as the format suite; statement = second-pass text byte-identical to the first "
